@@ -135,6 +135,8 @@ def instance_of(draw, schema, depth=0):
         items = s.get("items", True)
         lo = _int(s.get("minItems", 0))
         hi = _int(s.get("maxItems", max(lo, 3)))
+        if isinstance(items, list) and s.get("additionalItems", True) is False and draw(st.integers(0, 3)) > 0:
+            hi = min(hi, len(items))  # aim at validity; perturb() appends the item that breaks it
         n = draw(st.integers(min(lo, 4), max(min(hi, 4), min(lo, 4))))
         out = []
         for i in range(n):
@@ -231,7 +233,11 @@ def perturb(draw, value, depth=0):
             return list(reversed(v))
         return {"a": v} if draw(st.booleans()) else (v[0] if v else None)
     if isinstance(v, dict):
-        op = draw(st.integers(0, 4))
+        op = draw(st.integers(0, 5))
+        if op == 5 and v:
+            # drop the first member (required / declared properties are generated first)
+            del v[next(iter(v))]
+            return v
         if op == 0 and v:
             k = draw(st.sampled_from(sorted(v)))
             del v[k]
